@@ -4,7 +4,7 @@
 #   tools/seeded_run.sh <dir with patch.diff | patch file> C05 [C03 ...]
 # Result lines go to stdout and to <dir>/detected-by.txt (when a directory under /verif/seeded is given).
 set -u
-src=$1; shift
+src=$(realpath "$1"); shift
 patch=$src; [ -d "$src" ] && patch=$src/patch.diff
 cd /verif
 if ! git -C /repo diff --quiet; then echo "/repo has uncommitted changes, refusing"; exit 2; fi
